@@ -31,7 +31,7 @@ def run(tier, seed):
     cp.run_parse_property('C13', tier, seed, [(mixed_prec(PR['p_neg']), [3] if tier == 'quick' else [2, 3, 4]), (mixed_prec(PR['p_expl']), [3])][:1 if tier == 'quick' else 2], ['accept', 'value', 'ctx_rw'], '', [], [],
                           validate_cf=False, wit_every=3, finish=False, R=R, defer=cases, variant='ctx', ctxkind=0, tag='kp')
     # grammars that ignore the context: parse(x) == context_parse(c, x)
-    sel = [(d[n], Ls) for n in names[:2]]
+    sel = [(d[n], [2] if tier == 'quick' else Ls) for n in names[:2]]
     cp.run_parse_property('C13', tier, seed, sel, ['accept', 'value', 'dual'], '', [], [], validate_cf=False, wit_every=3, finish=False, R=R, defer=cases, variant='ctx', ctxkind=4, tag='k4')
     return cp.run_deferred(R, tier, cases,
         'one query per (grammar mixing >= and >>= functors, context category in {T&, const T&, T by value, move-only T&&}, exact input length): every >>= functor call checks the identity (address and tag) '
